@@ -49,7 +49,7 @@ def generate_once(d, cse, as_dict=False):
     b = models.build(d)
     fs = FakeFS()
     argv = sys.argv
-    sys.argv = ["generator.py", "--header", "/sim/generated/ns/m.h", "--source", "/sim/generated/ns/m.cpp", "--namespace", "ns"]
+    sys.argv = ["generator.py", "--header", fs.header, "--source", fs.source, "--namespace", "ns"]
     cpp.open = fs.open
     try:
         with contextlib.redirect_stdout(io.StringIO()):
@@ -96,8 +96,10 @@ def generate_once(d, cse, as_dict=False):
         "process_noise": pe.process_noise.tolist(),
         "sensor_noises": {k: pe.sensor_noises[k].data.tolist() for k in sorted(pe.sensor_noises)},
     }
-    return {"header": sha(fs.files["/sim/generated/ns/m.h"]), "source": sha(fs.files["/sim/generated/ns/m.cpp"]), "layout": sha(json.dumps(layout, sort_keys=True)),
-            "header_text": fs.files["/sim/generated/ns/m.h"] if os.environ.get("FSIM_KEEP_TEXT") else None, "source_text": fs.files["/sim/generated/ns/m.cpp"] if os.environ.get("FSIM_KEEP_TEXT") else None}
+    files = fs.files
+    fs.close()
+    return {"header": sha(files[fs.header]), "source": sha(files[fs.source]), "layout": sha(json.dumps(layout, sort_keys=True)),
+            "header_text": files[fs.header] if os.environ.get("FSIM_KEEP_TEXT") else None, "source_text": files[fs.source] if os.environ.get("FSIM_KEEP_TEXT") else None}
 
 
 def main():
